@@ -11,14 +11,14 @@ CONSTANTS
   RotAt = 1000
   StartN = 996
   PauseAt = 2
-  MaxMsgs1 = 2
-  MaxMsgs2 = 1
+  MaxMsgs1 = 1
+  MaxMsgs2 = 0
   MaxOps = 30
   MaxTampers = 0
   MaxBudgetOps = 0
   MaxDisc = 0
   CutReads = TRUE
-  CutHandshake = FALSE
+  CutHandshake = TRUE
   EmitEvery = 1
 CONSTRAINT Bound
 VIEW View
